@@ -336,7 +336,7 @@ theorem Good.dec (P : Params) (hA : allocOk P = true) (ty : FT) : Good (allocCon
       (Good.ite (Good.pure _ _) (Good.fail _ _)))
   case mapU64Hash =>
     exact Good.bind (Good.readBE _ 8) (fun len => Good.bind (Good.alloc (mapPrealloc_le P hM len))
-      (fun _ => Good.bind (Good.decMapLoop _ len []) (fun a => Good.pure _ _)))
+      (fun _ => Good.bind (Good.decMapLoop _ _ []) (fun a => Good.pure _ _)))
   case updStatus =>
     exact Good.bind (Good.readBE _ 1) (fun a => Good.ite
       (Good.bind (Good.decTime _) (fun a => Good.pure _ _))
